@@ -45,6 +45,8 @@ LEVEL = 'exploration'
 RULE = (
     'fold: Hypothesis draws a client program as a coefficient table (state '
     'leaves: non-empty subset of {a:f32[k], n:i32[], m:f32[2,2], flag:bool[]}, '
+    'in a quarter of the programs also z: an int32 accumulator to which every '
+    'step adds a float32 multiple of sum(batch) (the state dtype changes once), '
     'k in {1,3}; init per leaf affine in shared/client input or the shared / '
     'client-input leaf returned unchanged, optional 1/client_input.s term; step '
     'per leaf affine in old state and batch reductions with coefficients from '
@@ -183,6 +185,10 @@ def build_fns(prog_json):
         st_['flag'] = cin['s'] > shared['c']
       else:
         st_['flag'] = jnp.asarray(bool(spec[1]))
+    if prog.get('z'):
+      # an integer accumulator that the first step turns into a float32 one
+      # (`count = 0` ... `count + 0.5 * x`): the state's dtype changes once
+      st_['z'] = cin['s']
     return st_
 
   def _step(state, batch):
@@ -218,6 +224,8 @@ def build_fns(prog_json):
         new['flag'] = jnp.logical_xor(state['flag'], by > 0)
       else:
         new['flag'] = state['flag']
+    if prog.get('z'):
+      new['z'] = state['z'] + h(prog['z']) * bs
     res = {}
     if 'sum' in emit:
       res['sum'] = bs
@@ -249,6 +257,8 @@ def build_fns(prog_json):
         out['m'] = state['m']          # a donated state leaf returned unchanged
       if 'flag' in leaves:
         out['flag'] = state['flag']
+      if prog.get('z'):
+        out['z'] = state['z']
       if fin['extra_shared']:
         out['g'] = shared['g']         # a shared leaf returned unchanged
       return out
@@ -364,6 +374,11 @@ def compare_tree(got, want, exact, tol, clause, where):
     p = jax.tree_util.keystr(path)
     g = _leaf_np(g, clause, f'{where} leaf {p}')
     w = np.asarray(w)
+    if p.endswith("['z']"):
+      # the accumulator whose dtype the first step changes: a client that saw no
+      # real batch may come back as int32 or (stacked with clients that did, in
+      # a pmap block) as float32 -- only its VALUE is compared
+      g, w = g.astype(np.float64), w.astype(np.float64)
     require(g.dtype == w.dtype and g.shape == w.shape, clause + ':dtype_or_shape',
             lambda: f'{where} leaf {p}: {g.dtype}{g.shape} vs {w.dtype}{w.shape}')
     if exact or w.dtype.kind != 'f':
@@ -518,6 +533,8 @@ def fold_labels(case):
       ls.append('init_returns_client_input_leaf')
   if 'flag' in prog['leaves']:
     ls.append('bool_leaf')
+  if prog.get('z'):
+    ls.append('state_dtype_changes_at_first_step')
   step_special = program_step_special(prog)
   init_special = program_init_special(prog)
   if step_special:
@@ -620,8 +637,11 @@ def program_strategy(draw):
       final['a'] = [draw(_nzhalf), draw(_half)]
     if 'n' in leaves:
       final['n'] = [draw(_int)]
-  return {'k': k, 'leaves': leaves, 'init': init, 'step': step, 'emit': emit,
+  prog = {'k': k, 'leaves': leaves, 'init': init, 'step': step, 'emit': emit,
           'final': final}
+  if draw(st.integers(0, 3)) == 0:
+    prog['z'] = draw(st.sampled_from([1, -1, 3]))   # halves: 0.5, -0.5, 1.5
+  return prog
 
 
 def _digits(draw, count, lo, hi):
